@@ -16,7 +16,7 @@ RULE = ('programs = every well-typed pipeline of depth 1..3 over the dual-mode o
         'a group can be delivered as a second lifetime of an index that already completed. Oracle (differential on the real '
         'code): items at the tail tap bucketed per group == items delivered by rx.from_(group items).pipe(*P) built afresh. '
         'Non-trivial = at least two groups whose items interleave.')
-DEEP_PROBES = ('group keys with equal hashes (-1/-2, 5/5+2^61-1); float states through 0.0 / -0.0 and non-dyadic floats')
+DEEP_PROBES = ('every program subscribed twice on the same observable (keyed and plain); flat_map followed by every operator; group keys with equal hashes (-1/-2, 5/5+2^61-1); float states through 0.0 / -0.0 and non-dyadic floats')
 ASSUMPTIONS = ['user functions are total and pure; accumulators keep the seed type (typed grammar)',
                'first/last/mean(reduce) on an empty group are outside the property (skipped on whichever side the error shows)',
                'emission time and the order between outputs of different groups are not compared']
@@ -217,6 +217,20 @@ def run_case(case, acc):
                         reported.add(sym)
                         detail.update({'program': prog, 'items': items})
                         out.append(viol(case, sym, detail))
+        # the same observable subscribed a second time (retry / repeat / a second consumer), keyed and plain: same output again
+        # (not for tee_map: its published source cannot be connected a second time at the pinned commit - outside what C01 states)
+        for order in ([0, 1, 0, 1, 1], [0, 0, 0]) if 'tee_map' not in harness.opnames(prog) else ():
+            items = items_of(order, 0)
+            for mux, sp, its in ((True, spec, items), (False, prog, [x for x in items if x // 10 == 0])):
+                a, b = harness.run_twice(sp, its, mux=mux)
+                acc.evals += 2
+                acc.events += 2 * (len(its) + 1)
+                acc.traces += 2
+                acc.count('second_subscriptions')
+                if a.error is None and not harness.same_outcome(a, b) and 'second-subscription' not in reported:
+                    reported.add('second-subscription')
+                    out.append(viol(case, 'second-subscription-differs-%s' % ('mux' if mux else 'plain'),
+                                    {'program': prog, 'items': its, 'first': [a.items, a.status()], 'second': [b.items, b.status()]}))
         return out
 
     # raw mux driver: sparse indices, second lifetime of a completed index
